@@ -62,9 +62,9 @@ Section Sim.
     Pend gs sg -> Fr N sg s1 -> (forall g, In g gs -> tmem (g_name g) N = false) -> Pend gs s1.
   Proof. intros HP HF HN g Hg. rewrite (Fr_tlookup N sg s1 _ HF (HN g Hg)). apply HP. exact Hg. Qed.
 
-  Lemma fresh_not_written top D ps (N : list ident) g :
+  Lemma fresh_not_written top lm D ps (N : list ident) g :
     (forall x, In x N -> tmem x (map fst D) = true) ->
-    In g (snd (trm top D ps)) -> tmem (g_name g) N = false.
+    In g (snd (trm top lm D ps)) -> tmem (g_name g) N = false.
   Proof.
     intros HN Hg. apply trm_fresh in Hg. destruct (tmem (g_name g) N) eqn:E; [|reflexivity].
     apply tmem_In in E. apply HN in E. exfalso. exact (bool_contra _ E Hg).
@@ -87,16 +87,20 @@ Section Sim.
   Qed.
 
   (* ---- the simulation statement at Python fuel f ---- *)
+  (* [loc] = the locals the statement list declares (main-loop body only), on top of the store
+     [sg'] that has the shape of the initial store *)
   Definition sim_at (f : nat) : Prop :=
-    forall ps top gf D L D' rho sg rho' tr o,
+    forall ps top lm gf D L D' rho sg rho' tr o,
     g_block gf top D L ps = Some D' ->
     incl (anns_in ps) (prog_anns P) -> incl (augs_in ps) (prog_augs P) ->
-    Rel D L rho sg -> Pend (snd (trm top D ps)) sg ->
+    Rel D L rho sg -> Pend (snd (trm top lm D ps)) sg ->
     pexec f rho ps = Some (rho', tr, o) ->
-    exists sg' F, (forall F', (F <= F')%nat -> cexec F' sg (fst (trm top D ps)) = Some (sg', tr, o))
+    exists loc sg' F,
+      (forall F', (F <= F')%nat -> cexec F' sg (fst (trm top lm D ps)) = Some (loc ++ sg', tr, o))
       /\ Fr (wr_in ps) sg sg'
       /\ Rel D L rho' sg'
-      /\ (o = ONormal -> Rel D' L rho' sg' /\ ConstsOk (snd (trm top D ps))).
+      /\ (top && lm = false -> loc = [])
+      /\ (o = ONormal -> Rel D' L rho' (loc ++ sg') /\ ConstsOk (snd (trm top lm D ps))).
 
   Lemma Fr_app_l N1 N2 a b : Fr N1 a b -> Fr (N1 ++ N2) a b.
   Proof. apply Fr_mono. intros x H. rewrite tmem_app, H. reflexivity. Qed.
@@ -105,31 +109,34 @@ Section Sim.
   Lemma Fr_incl N1 N2 a b : incl N1 N2 -> Fr N1 a b -> Fr N2 a b.
   Proof. intro HI. apply Fr_mono. intros x H. apply tmem_In. apply HI. apply tmem_In. exact H. Qed.
 
-  Lemma sim_tail f (IH : sim_at f) top gf' D D1 L D' rho1 sg s1 p rest nsp gsp e1 F1 rho2 e2 o :
+  Lemma sim_tail f (IH : sim_at f) top lm gf' D D1 L D' rho1 sg s1 p rest nsp gsp e1 F1 rho2 e2 o :
     g_block gf' top D1 L rest = Some D' ->
     incl (anns_in rest) (prog_anns P) -> incl (augs_in rest) (prog_augs P) ->
     ext D D1 ->
     Rel D1 L rho1 s1 ->
-    Pend (snd (trm top D1 rest)) sg ->
+    Pend (snd (trm top lm D1 rest)) sg ->
     Fr (wr p) sg s1 ->
     (forall x, In x (wr p) -> tmem x (map fst D1) = true) ->
     (forall F' restC, (F1 <= F')%nat -> cexec (S F') sg (nsp ++ restC) =
         match cexec F' s1 restC with None => None | Some (s2, e2, o) => Some (s2, e1 ++ e2, o) end) ->
     ConstsOk gsp ->
     pexec f rho1 rest = Some (rho2, e2, o) ->
-    exists sg' F, (forall F', (F <= F')%nat -> cexec F' sg (nsp ++ fst (trm top D1 rest)) = Some (sg', e1 ++ e2, o))
+    exists loc sg' F,
+      (forall F', (F <= F')%nat -> cexec F' sg (nsp ++ fst (trm top lm D1 rest)) = Some (loc ++ sg', e1 ++ e2, o))
       /\ Fr (wr_in (p :: rest)) sg sg'
       /\ Rel D L rho2 sg'
-      /\ (o = ONormal -> Rel D' L rho2 sg' /\ ConstsOk (gsp ++ snd (trm top D1 rest))).
+      /\ (top && lm = false -> loc = [])
+      /\ (o = ONormal -> Rel D' L rho2 (loc ++ sg') /\ ConstsOk (gsp ++ snd (trm top lm D1 rest))).
   Proof.
     intros HG Han Hau HE HR HP HF HW HH HC HX.
-    assert (HP1 : Pend (snd (trm top D1 rest)) s1).
+    assert (HP1 : Pend (snd (trm top lm D1 rest)) s1).
     { eapply Pend_frame; [exact HP|exact HF|]. intros g Hg. eapply fresh_not_written; eauto. }
-    destruct (IH rest top gf' D1 L D' rho1 s1 rho2 e2 o HG Han Hau HR HP1 HX) as (sg' & F2 & C2 & Fr2 & R2 & N2).
-    exists sg', (S (Nat.max F1 F2)). split; [|split; [|split]].
+    destruct (IH rest top lm gf' D1 L D' rho1 s1 rho2 e2 o HG Han Hau HR HP1 HX) as (loc & sg' & F2 & C2 & Fr2 & R2 & L2 & N2).
+    exists loc, sg', (S (Nat.max F1 F2)). split; [|split; [|split; [|split]]].
     - intros F' HF'. destruct F' as [|F'']; [lia|]. rewrite HH by lia. rewrite C2 by lia. reflexivity.
     - cbn [wr_in]. eapply Fr_trans_same; [apply Fr_app_l; exact HF|apply Fr_app_r; exact Fr2].
     - eapply Rel_mono; [exact HE|exact R2].
+    - exact L2.
     - intro Ho. destruct (N2 Ho) as [N21 N22]. split; [exact N21|]. apply Forall_app. auto.
   Qed.
 
@@ -138,15 +145,16 @@ Section Sim.
 
   Lemma sim_all : forall f, sim_at f.
   Proof.
-    induction f as [|f IH]; intros ps top gf D L D' rho sg rho' tr o HG Han Hau HR HP HE; [discriminate|].
+    induction f as [|f IH]; intros ps top lm gf D L D' rho sg rho' tr o HG Han Hau HR HP HE; [discriminate|].
     destruct ps as [|p rest].
     - (* nil *)
       rewrite pexec_nil in HE. inversion HE; subst.
       destruct gf; [discriminate|]. rewrite g_block_nil in HG. inversion HG; subst.
-      exists sg, 1%nat. rewrite trm_nil. cbn [fst snd]. split; [|split; [|split]].
+      exists [], sg, 1%nat. rewrite trm_nil. cbn [fst snd app]. split; [|split; [|split; [|split]]].
       + intros F' HF. destruct F'; [lia|]. reflexivity.
       + apply Fr_refl.
       + assumption.
+      + reflexivity.
       + intros _. split; [assumption|constructor].
     - apply g_block_cons_inv in HG as (gf' & D1 & -> & HS & HG).
       cbn [anns_in augs_in] in Han, Hau.
@@ -170,8 +178,8 @@ Section Sim.
           destruct (cupd_spec (wr (PAssign x e)) x v sg _ _ P3) as (b & Hb & L1 & L2 & HF).
           { cbn. rewrite text_eqb_refl. reflexivity. }
           rewrite (conv_has_ty _ _ Hv) in L1.
-          rewrite (trm_cons_old top D x e rest _ Hl) in HP |- *. cbn [fst snd] in HP |- *. rewrite tr1_unfold.
-          eapply (sim_tail f IH top gf' D D L D' (pset x v rho) sg b (PAssign x e) rest
+          rewrite (trm_cons_old top lm D x e rest _ Hl) in HP |- *. cbn [fst snd] in HP |- *. rewrite tr1_unfold.
+          eapply (sim_tail f IH top lm gf' D D L D' (pset x v rho) sg b (PAssign x e) rest
                     [NAssign x (XE (a_id e))] [] [] 0%nat rho2 e2 o2);
           [exact HG|exact Han2|exact Hau2| | | | | | | |exact Er].
           -- apply ext_refl.
@@ -181,8 +189,29 @@ Section Sim.
           -- exact HWD.
           -- intros F' restC _. cbn [app]. rewrite cexec_assign. cbn [ceval]. rewrite Hc, Hb. reflexivity.
           -- constructor.
-        * (* first assignment at top level: a global *)
+        * (* first assignment at the declaring level *)
           destruct top; [|discriminate]. inversion HS; subst D1. clear HS.
+          destruct lm.
+          { (* main-loop body: a local of loop(), declared in place *)
+            rewrite (trm_cons_newl D x e rest Hl) in HP |- *. cbn [fst snd] in HP |- *.
+            set (s1 := (x, (a_ty e, v)) :: sg).
+            assert (HR1 : Rel (D ++ [(x, a_ty e)]) L (pset x v rho) s1).
+            { eapply Rel_set; [exact HR|apply set_new; exact Hl|exact HxL|exact Hv| |].
+              - unfold s1. cbn [tlookup]. rewrite text_eqb_refl. reflexivity.
+              - intros y Hy. unfold s1. cbn [tlookup]. apply text_eqb_neq in Hy. rewrite Hy. reflexivity. }
+            destruct (IH rest true true gf' _ L D' _ s1 rho2 e2 o2 HG Han2 Hau2 HR1) as (loc & sgr & F2 & C2 & Fr2 & R2' & _ & N2);
+              [intros g []|exact Er|].
+            destruct (Fr_cons_inv' _ _ _ _ Fr2) as (q & sg2 & -> & Hq & Fr2').
+            exists (loc ++ [q]), sg2, (S F2). split; [|split; [|split; [|split]]].
+            - intros F' HF'. destruct F' as [|F'']; [lia|]. rewrite cexec_decl. cbn [ceval]. rewrite Hc.
+              rewrite (conv_has_ty _ _ Hv). cbn [ccont]. fold s1. rewrite C2 by lia.
+              rewrite <- app_assoc. reflexivity.
+            - cbn [wr_in]. apply Fr_app_r. exact Fr2'.
+            - eapply Rel_drop; [exact R2'|apply ext_snoc| |].
+              + rewrite Hq. cbn [fst]. eapply tlookup_dom_false; eauto.
+              + rewrite Hq. cbn [fst]. exact HxL.
+            - discriminate.
+            - intro Ho. destruct (N2 Ho) as [N21 N22]. rewrite <- app_assoc. split; [exact N21|constructor]. }
           rewrite (trm_cons_new D x e rest Hl) in *.
           destruct (closed_const e) eqn:Hcc; cbn [fst snd] in *.
           -- (* constant initialiser: no node *)
@@ -194,13 +223,14 @@ Section Sim.
              { pose proof (HP g (or_introl eq_refl)) as Hg. unfold pend_val in Hg. cbn in Hg. rewrite Hs0 in Hg. exact Hg. }
              assert (HR1 : Rel (D ++ [(x, a_ty e)]) L (pset x v rho) sg).
              { eapply Rel_set; [exact HR|apply set_new; exact Hl| | | |]; eauto. }
-             assert (HP1 : Pend (snd (trm true (D ++ [(x, a_ty e)]) rest)) sg).
+             assert (HP1 : Pend (snd (trm true false (D ++ [(x, a_ty e)]) rest)) sg).
              { intros g' Hg'. apply HP. right. exact Hg'. }
-             destruct (IH rest true gf' _ L D' _ sg rho2 e2 o2 HG Han2 Hau2 HR1 HP1 Er) as (sg' & F2 & C2 & Fr2 & R2' & N2).
-             exists sg', F2. split; [|split; [|split]].
+             destruct (IH rest true false gf' _ L D' _ sg rho2 e2 o2 HG Han2 Hau2 HR1 HP1 Er) as (loc & sg' & F2 & C2 & Fr2 & R2' & L2 & N2).
+             exists loc, sg', F2. split; [|split; [|split; [|split]]].
              ++ exact C2.
              ++ cbn [wr_in]. apply Fr_app_r. exact Fr2.
              ++ eapply Rel_mono; [apply ext_snoc|exact R2'].
+             ++ exact L2.
              ++ intro Ho. destruct (N2 Ho) as [N21 N22]. split; [exact N21|]. constructor; [|exact N22].
                 unfold const_ok. cbn. exists v. split; [exact Hs0|]. split; [exact Hv|].
                 intro s0. unfold StmtSem.cev. destruct (Hinfo e Hin) as (b & Hb & Hfb). rewrite Hb, Hfb, Hfv0. exact Hs0.
@@ -211,11 +241,11 @@ Section Sim.
              destruct (cupd_spec (wr (PAssign x e)) x v sg _ _ Hg) as (b & Hb & L1 & L2 & HF).
              { cbn. rewrite text_eqb_refl. reflexivity. }
              rewrite (conv_has_ty _ _ Hv) in L1.
-             change (NAssign x (XE (a_id e)) :: fst (trm true (D ++ [(x, a_ty e)]) rest))
-               with ([NAssign x (XE (a_id e))] ++ fst (trm true (D ++ [(x, a_ty e)]) rest)).
-             change (g :: snd (trm true (D ++ [(x, a_ty e)]) rest))
-               with ([g] ++ snd (trm true (D ++ [(x, a_ty e)]) rest)).
-             eapply (sim_tail f IH true gf' D (D ++ [(x, a_ty e)]) L D' (pset x v rho) sg b (PAssign x e) rest
+             change (NAssign x (XE (a_id e)) :: fst (trm true false (D ++ [(x, a_ty e)]) rest))
+               with ([NAssign x (XE (a_id e))] ++ fst (trm true false (D ++ [(x, a_ty e)]) rest)).
+             change (g :: snd (trm true false (D ++ [(x, a_ty e)]) rest))
+               with ([g] ++ snd (trm true false (D ++ [(x, a_ty e)]) rest)).
+             eapply (sim_tail f IH true false gf' D (D ++ [(x, a_ty e)]) L D' (pset x v rho) sg b (PAssign x e) rest
                     [NAssign x (XE (a_id e))] [g] [] 0%nat rho2 e2 o2);
           [exact HG|exact Han2|exact Hau2| | | | | | | |exact Er].
              ++ apply ext_snoc.
@@ -245,8 +275,8 @@ Section Sim.
         destruct (cupd_spec (wr (PAug x op e t_after)) x w sg _ _ P3) as (b & Hb & L1 & L2 & HF).
         { cbn. rewrite text_eqb_refl. reflexivity. }
         rewrite (conv_has_ty _ _ Hw) in L1.
-        rewrite (trm_cons_other top D (PAug x op e t_after) rest I) in HP |- *. cbn [fst snd] in HP |- *. rewrite tr1_unfold.
-        eapply (sim_tail f IH top gf' D D L D' (pset x w rho) sg b (PAug x op e t_after) rest
+        rewrite (trm_cons_other top lm D (PAug x op e t_after) rest I) in HP |- *. cbn [fst snd] in HP |- *. rewrite tr1_unfold.
+        eapply (sim_tail f IH top lm gf' D D L D' (pset x w rho) sg b (PAug x op e t_after) rest
                   [NAssign x (XAug x op (a_id e))] [] [] 0%nat rho2 e2 o2);
           [exact HG|exact Han2|exact Hau2| | | | | | | |exact Er].
         * apply ext_refl.
@@ -301,18 +331,19 @@ Section Sim.
             + apply (args_agree D L rho sg _ HR H2). }
         destruct (pick_agree rho sg els _ b CONDS Epick) as [Hcp Hb].
         destruct (GOOD b Hb) as (Gb & Anb & Aub & Wrb).
-        destruct (IH b false gf' D L D rho sg rho1 e1 o1 Gb Anb Aub HR) as (s1 & Fb & Cb & Frb & Rb & _); [intros g []|exact Eb|].
+        destruct (IH b false false gf' D L D rho sg rho1 e1 o1 Gb Anb Aub HR) as (loc0 & s1 & Fb & Cb & Frb & Rb & Hl0 & _); [intros g []|exact Eb|].
+        rewrite (Hl0 eq_refl) in Cb. cbn [app] in Cb.
         cbn [trm fst] in Cb.
         assert (HEAD : forall F', (Fb <= F')%nat ->
                   (match cpick sem info sg (trn els) ((a_id c, trn body) :: trnb elifs) with
                    | Some b0 => cblock sem augsem info F' sg b0 | None => None end) = Some (s1, e1, o1)).
         { intros F' HF'. cbn [trnb] in Hcp. rewrite Hcp. unfold cblock. rewrite Cb by exact HF'.
           rewrite (lastn_Fr _ _ _ Frb). reflexivity. }
-        rewrite (trm_cons_other top D (PIf c body elifs els) rest I) in HP |- *. cbn [fst snd] in HP |- *. rewrite tr1_unfold.
+        rewrite (trm_cons_other top lm D (PIf c body elifs els) rest I) in HP |- *. cbn [fst snd] in HP |- *. rewrite tr1_unfold.
         destruct o1; cbn [pcont] in HE.
         * destruct (pexec f rho1 rest) as [[[rho2 e2] o2]|] eqn:Er; [|discriminate].
           inversion HE; subst rho' tr o. clear HE.
-          eapply (sim_tail f IH top gf' D D L D' rho1 sg s1 (PIf c body elifs els) rest
+          eapply (sim_tail f IH top lm gf' D D L D' rho1 sg s1 (PIf c body elifs els) rest
                     [NIf ((a_id c, trn body) :: trnb elifs) (trn els)] [] e1 Fb rho2 e2 o2);
           [exact HG|exact Han2|exact Hau2| | | | | | | |exact Er].
           -- apply ext_refl.
@@ -323,11 +354,12 @@ Section Sim.
           -- intros F' restC HF'. cbn [app]. rewrite cexec_if. rewrite (HEAD F' HF'). reflexivity.
           -- constructor.
         * inversion HE; subst rho' tr o. clear HE.
-          exists s1, (S Fb). split; [|split; [|split]].
+          exists [], s1, (S Fb). split; [|split; [|split; [|split]]].
           -- intros F' HF'. destruct F' as [|F'']; [lia|]. cbn [app]. rewrite cexec_if.
              rewrite (HEAD F'') by lia. reflexivity.
           -- cbn [wr_in]. apply Fr_app_l. eapply Fr_incl; [exact Wrb|exact Frb].
           -- exact Rb.
+          -- reflexivity.
           -- discriminate.
       + (* ---------- PWhile ---------- *)
         rewrite pexec_while in HE. destruct (peval c rho) as [v|] eqn:Ec; [|discriminate].
@@ -340,10 +372,11 @@ Section Sim.
         destruct (eval_ok D L rho sg c v HR Hc Hin Ec) as [Hcv _].
         assert (Anb : incl (anns_in body) (prog_anns P)) by (intros y Hy; apply Han1; right; exact Hy).
         pose proof (wr_unfold (PWhile c body)) as HWR.
-        pose proof (trm_cons_other top D (PWhile c body) rest I) as HTRM. rewrite tr1_unfold in HTRM.
+        pose proof (trm_cons_other top lm D (PWhile c body) rest I) as HTRM. rewrite tr1_unfold in HTRM.
         destruct (truthy v) eqn:Etv.
         * destruct (pexec f rho body) as [[[rho1 e1] o1]|] eqn:Eb; [|discriminate].
-          destruct (IH body false gf' D L D rho sg rho1 e1 o1 H1 Anb Hau1 HR) as (s1 & Fb & Cb & Frb & Rb & _); [intros g []|exact Eb|].
+          destruct (IH body false false gf' D L D rho sg rho1 e1 o1 H1 Anb Hau1 HR) as (loc0 & s1 & Fb & Cb & Frb & Rb & Hl0 & _); [intros g []|exact Eb|].
+          rewrite (Hl0 eq_refl) in Cb. cbn [app] in Cb.
           cbn [trm fst] in Cb.
           assert (BLK : forall F', (Fb <= F')%nat -> cblock sem augsem info F' sg (trn body) = Some (s1, e1, o1)).
           { intros F' HF'. unfold cblock. rewrite Cb by exact HF'. rewrite (lastn_Fr _ _ _ Frb). reflexivity. }
@@ -353,26 +386,27 @@ Section Sim.
              inversion HE; subst rho' tr o. clear HE.
              assert (HG' : g_block (S gf') top D L (PWhile c body :: rest) = Some D').
              { rewrite g_block_cons, HS0. exact HG. }
-             assert (HP1 : Pend (snd (trm top D (PWhile c body :: rest))) s1).
+             assert (HP1 : Pend (snd (trm top lm D (PWhile c body :: rest))) s1).
              { eapply Pend_frame; [exact HP|exact Frb|]. intros g Hg.
                eapply fresh_not_written; [|exact Hg]. intros y Hy. eapply wr_dom_nested; eauto. }
              assert (Han' : incl (anns_in (PWhile c body :: rest)) (prog_anns P)).
              { cbn [anns_in]. rewrite anns_of_unfold. apply incl_app; assumption. }
              assert (Hau' : incl (augs_in (PWhile c body :: rest)) (prog_augs P)).
              { cbn [augs_in]. rewrite augs_of_unfold. apply incl_app; assumption. }
-             destruct (IH _ top _ D L D' rho1 s1 rho2 e2 o2 HG' Han' Hau' Rb HP1 Er) as (s2 & F2 & C2 & Fr2 & R2 & N2).
+             destruct (IH _ top lm _ D L D' rho1 s1 rho2 e2 o2 HG' Han' Hau' Rb HP1 Er) as (loc & s2 & F2 & C2 & Fr2 & R2 & L2 & N2).
              rewrite HTRM in *. cbn [fst snd app] in *.
-             exists s2, (S (Nat.max Fb F2)). split; [|split; [|split]].
+             exists loc, s2, (S (Nat.max Fb F2)). split; [|split; [|split; [|split]]].
              ++ intros F' HF'. destruct F' as [|F'']; [lia|]. rewrite cexec_while, Hcv, Etv.
                 rewrite BLK by lia. rewrite C2 by lia. reflexivity.
              ++ eapply Fr_trans_same; [|exact Fr2]. cbn [wr_in]. apply Fr_app_l. rewrite HWR. exact Frb.
              ++ exact R2.
+             ++ exact L2.
              ++ exact N2.
           -- (* break: continue after the loop *)
              destruct (pexec f rho1 rest) as [[[rho2 e2] o2]|] eqn:Er; [|discriminate].
              inversion HE; subst rho' tr o. clear HE.
              rewrite HTRM in HP |- *. cbn [fst snd] in HP |- *.
-             eapply (sim_tail f IH top gf' D D L D' rho1 sg s1 (PWhile c body) rest
+             eapply (sim_tail f IH top lm gf' D D L D' rho1 sg s1 (PWhile c body) rest
                        [NWhile (a_id c) (trn body)] [] e1 Fb rho2 e2 o2);
           [exact HG|exact Han2|exact Hau2| | | | | | | |exact Er].
              ++ apply ext_refl.
@@ -385,7 +419,7 @@ Section Sim.
         * (* condition false *)
           rewrite HTRM in HP |- *. cbn [fst snd] in HP |- *.
           change tr with ([] ++ tr).
-          eapply (sim_tail f IH top gf' D D L D' rho sg sg (PWhile c body) rest
+          eapply (sim_tail f IH top lm gf' D D L D' rho sg sg (PWhile c body) rest
                     [NWhile (a_id c) (trn body)] [] [] 0%nat rho' tr o);
           [exact HG|exact Han2|exact Hau2| | | | | | | |exact HE].
           -- apply ext_refl.
@@ -441,8 +475,9 @@ Section Sim.
             assert (Hlt : (i <? n) = false) by (apply Z.ltb_ge; lia). rewrite Hlt. reflexivity.
           - cbn [piter] in HI.
             destruct (pexec f (pset x (VI i) rho0) body) as [[[rhoB eB] oB]|] eqn:Eb; [|discriminate].
-            destruct (IH body false gf' D (x :: L) D (pset x (VI i) rho0) ((x, (TyInt, VI i)) :: sg0) rhoB eB oB H8 Anb Hau1)
-              as (s1 & Fb & Cb & Frb & Rb & _); [apply Rel_push; assumption|intros g []|exact Eb|].
+            destruct (IH body false false gf' D (x :: L) D (pset x (VI i) rho0) ((x, (TyInt, VI i)) :: sg0) rhoB eB oB H8 Anb Hau1)
+              as (loc0 & s1 & Fb & Cb & Frb & Rb & Hl0 & _); [apply Rel_push; assumption|intros g []|exact Eb|].
+            rewrite (Hl0 eq_refl) in Cb. cbn [app] in Cb.
             cbn [trm fst] in Cb.
             destruct (Fr_cons_inv _ _ _ _ Frb HxW) as (sg1 & -> & Frb').
             apply Rel_pop in Rb; [|assumption|assumption].
@@ -467,8 +502,8 @@ Section Sim.
               rewrite BLK by lia. reflexivity. }
         destruct (IT (Z.to_nat n) 0 rho sg rho1 e1 HR (Fr_refl _ _)) as (sgE & vE & FE & CE & RE & FrE);
           [f_equal; lia|exact Eit|].
-        rewrite (trm_cons_other top D (PFor x cnt body) rest I) in HP |- *. cbn [fst snd] in HP |- *. rewrite tr1_unfold.
-        eapply (sim_tail f IH top gf' D D L D' rho1 sg sgE (PFor x cnt body) rest
+        rewrite (trm_cons_other top lm D (PFor x cnt body) rest I) in HP |- *. cbn [fst snd] in HP |- *. rewrite tr1_unfold.
+        eapply (sim_tail f IH top lm gf' D D L D' rho1 sg sgE (PFor x cnt body) rest
                   [NFor x (a_id cnt) (trn body)] [] e1 (Nat.max FE (Z.to_nat n)) rho2 e2 o2);
           [exact HG|exact Han2|exact Hau2| | | | | | | |exact Er].
         * apply ext_refl.
@@ -482,11 +517,12 @@ Section Sim.
       + (* ---------- PBreak ---------- *)
         rewrite pexec_break in HE. inversion HE; subst rho' tr o. clear HE.
         cbn [g_step] in HS. inversion HS; subst D1.
-        rewrite (trm_cons_other top D PBreak rest I). cbn [fst snd]. rewrite tr1_unfold.
-        exists sg, 1%nat. split; [|split; [|split]].
+        rewrite (trm_cons_other top lm D PBreak rest I). cbn [fst snd]. rewrite tr1_unfold.
+        exists [], sg, 1%nat. split; [|split; [|split; [|split]]].
         * intros F' HF'. destruct F' as [|F'']; [lia|]. cbn [app]. apply cexec_break.
         * apply Fr_refl.
         * exact HR.
+        * reflexivity.
         * discriminate.
       + (* ---------- PWrite ---------- *)
         rewrite pexec_write in HE. destruct (peval e rho) as [v|] eqn:Ev; [|discriminate]. cbn [pcont] in HE.
@@ -495,8 +531,8 @@ Section Sim.
         cbn [g_step] in HS. destruct (fv_ok D L e) eqn:Hfv; [|discriminate]. inversion HS; subst D1.
         rewrite anns_of_unfold in Han1. assert (Hin : In e (prog_anns P)) by (apply Han1; left; reflexivity).
         destruct (eval_ok D L rho sg e v HR Hfv Hin Ev) as [Hc Hv].
-        rewrite (trm_cons_other top D (PWrite e) rest I) in HP |- *. cbn [fst snd] in HP |- *. rewrite tr1_unfold.
-        eapply (sim_tail f IH top gf' D D L D' rho sg sg (PWrite e) rest
+        rewrite (trm_cons_other top lm D (PWrite e) rest I) in HP |- *. cbn [fst snd] in HP |- *. rewrite tr1_unfold.
+        eapply (sim_tail f IH top lm gf' D D L D' rho sg sg (PWrite e) rest
                   [NWrite (a_id e)] [] [EvSer v] 0%nat rho2 e2 o2);
           [exact HG|exact Han2|exact Hau2| | | | | | | |exact Er].
         * apply ext_refl.
@@ -513,8 +549,8 @@ Section Sim.
         cbn [g_step] in HS. destruct (fv_ok D L e) eqn:Hfv; [|discriminate]. inversion HS; subst D1.
         rewrite anns_of_unfold in Han1. assert (Hin : In e (prog_anns P)) by (apply Han1; left; reflexivity).
         destruct (eval_ok D L rho sg e v HR Hfv Hin Ev) as [Hc Hv].
-        rewrite (trm_cons_other top D (PSleep e) rest I) in HP |- *. cbn [fst snd] in HP |- *. rewrite tr1_unfold.
-        eapply (sim_tail f IH top gf' D D L D' rho sg sg (PSleep e) rest
+        rewrite (trm_cons_other top lm D (PSleep e) rest I) in HP |- *. cbn [fst snd] in HP |- *. rewrite tr1_unfold.
+        eapply (sim_tail f IH top lm gf' D D L D' rho sg sg (PSleep e) rest
                   [NSleep (a_id e)] [] [EvDelay v] 0%nat rho2 e2 o2);
           [exact HG|exact Han2|exact Hau2| | | | | | | |exact Er].
         * apply ext_refl.
@@ -531,14 +567,14 @@ Section Sim.
         cbn [g_step] in HS. destruct (fv_ok D L e) eqn:Hfv; [|discriminate]. inversion HS; subst D1.
         rewrite anns_of_unfold in Han1. assert (Hin : In e (prog_anns P)) by (apply Han1; left; reflexivity).
         destruct (eval_ok D L rho sg e v HR Hfv Hin Ev) as [Hc Hv].
-        rewrite (trm_cons_other top D (PExprS e) rest I) in *. cbn [fst snd] in *. rewrite tr1_unfold.
+        rewrite (trm_cons_other top lm D (PExprS e) rest I) in *. cbn [fst snd] in *. rewrite tr1_unfold.
         destruct (closed_const e) eqn:Hcc.
         * (* a constant expression statement is dropped on both sides *)
           cbn [app] in *.
-          destruct (IH rest top gf' D L D' rho sg rho2 e2 o2 HG Han2 Hau2 HR HP Er) as (sg' & F2 & C2 & Fr2 & R2 & N2).
-          exists sg', F2. split; [exact C2|]. split; [|split; assumption].
-          cbn [wr_in]. apply Fr_app_r. exact Fr2.
-        * eapply (sim_tail f IH top gf' D D L D' rho sg sg (PExprS e) rest
+          destruct (IH rest top lm gf' D L D' rho sg rho2 e2 o2 HG Han2 Hau2 HR HP Er) as (loc & sg' & F2 & C2 & Fr2 & R2 & L2 & N2).
+          exists loc, sg', F2. split; [exact C2|]. split; [cbn [wr_in]; apply Fr_app_r; exact Fr2|].
+          split; [|split]; assumption.
+        * eapply (sim_tail f IH top lm gf' D D L D' rho sg sg (PExprS e) rest
                     [NExprS (a_id e)] [] [EvX (a_id e) v] 0%nat rho2 e2 o2);
           [exact HG|exact Han2|exact Hau2| | | | | | | |exact Er].
           -- apply ext_refl.
